@@ -38,7 +38,7 @@ class C01(Check):
         tm = 2 * T.TICKS
         full_pk = [p for (_, p) in T.PACKET_ALPHABET]
         if quick:
-            plans = [(2, [0, 1, tm - 1, tm, tm + 1], (0, 1, 2), full_pk[:8], (0, 600, 1024))]
+            plans = [(2, [0, 1, tm - 1, tm, tm + 1], (0, 5, 2), full_pk[:8], (0, 600, 1024))]
         else:
             plans = [(2, T.time_steps(tm), (0, 0, 1, 2), full_pk, (0, 600)),
                      (3, [0, tm - 1, tm, tm + 1], (0, 1), full_pk[:4] + full_pk[4:6] + [full_pk[8]], (600, 1024))]
